@@ -34,6 +34,9 @@ var (
 	ErrOverflow = errors.New("increment or decrement would overflow")
 )
 
+// ErrAlreadyStarted is returned by Start when the server is already listening.
+var ErrAlreadyStarted = errors.New("already started")
+
 // ErrEmptyCommand is returned when a request array has no command name.
 var ErrEmptyCommand = errors.New("empty command")
 
